@@ -964,7 +964,44 @@ func fixedWidth(segs []Seg) (int, []string) {
 
 // affine describes c + Σ len(field_i) extracted from an int expression.
 func (P *Prog) affineLen(v ssa.Value, c *int64, lens *[]string) bool {
-	v = stripConv(v)
+	return P.affineLenD(v, c, lens, 0)
+}
+
+// narrowing: an integer conversion to a type of fewer than 32 bits. Inside a sum it makes the sum wrap for operands
+// the wire format allows (a field of 65532…65535 data bytes plus its 4-byte header); only the outermost conversion —
+// to the width of the prefix that is written — is part of the format.
+func narrowing(v ssa.Value) bool {
+	cv, ok := v.(*ssa.Convert)
+	if !ok {
+		return false
+	}
+	b, ok := cv.Type().Underlying().(*types.Basic)
+	if !ok {
+		return false
+	}
+	switch b.Kind() {
+	case types.Int8, types.Uint8, types.Int16, types.Uint16:
+		return true
+	}
+	return false
+}
+
+func (P *Prog) affineLenD(v ssa.Value, c *int64, lens *[]string, depth int) bool {
+	for {
+		if depth > 0 && narrowing(v) {
+			return false
+		}
+		switch x := v.(type) {
+		case *ssa.Convert:
+			v = x.X
+			depth++
+			continue
+		case *ssa.ChangeType:
+			v = x.X
+			continue
+		}
+		break
+	}
 	switch x := v.(type) {
 	case *ssa.Const:
 		n, ok := constInt(x)
@@ -975,7 +1012,7 @@ func (P *Prog) affineLen(v ssa.Value, c *int64, lens *[]string) bool {
 		return true
 	case *ssa.BinOp:
 		if x.Op == token.ADD {
-			return P.affineLen(x.X, c, lens) && P.affineLen(x.Y, c, lens)
+			return P.affineLenD(x.X, c, lens, depth+1) && P.affineLenD(x.Y, c, lens, depth+1)
 		}
 	case *ssa.Call:
 		if calleeName(&x.Call) == "builtin.len" {
@@ -1495,4 +1532,90 @@ func (R *Run) checkCodecAgree(extracted map[string][][]Seg, all map[string]specO
 	if n < 20 {
 		R.bad("codec-agree", "floor", "-", fmt.Sprintf("only %d decoder fields compared (expected at least 20)", n))
 	}
+}
+
+// ruleShiftEncoding (C01, shared with C09/C10): an integer spelled out byte by byte — x[i] = byte(v >> k) for one
+// and the same v over consecutive indices of one byte array / slice literal — is big-endian and complete: with n
+// bytes written, byte i carries v >> 8*(n-1-i). A repeated or missing shift sends a value that agrees with the
+// intended one only while the affected byte is zero.
+func (R *Run) ruleShiftEncoding() {
+	P := R.P
+	R.rule("shift-encoding", "where the bytes of one integer are written into consecutive elements of a byte array with explicit shifts, element i of n receives v >> 8·(n−1−i) (big-endian, every byte once)")
+	n := 0
+	for _, fn := range P.Funcs {
+		if isClientLibrary(fn) || fn.Pkg == nil || fn.Pkg.Pkg.Path() == cmdPath {
+			continue
+		}
+		type elem struct {
+			idx   int64
+			shift int64
+			v     ssa.Value
+			st    *ssa.Store
+		}
+		byBase := map[ssa.Value][]elem{}
+		eachInstr(fn, func(ins ssa.Instruction) {
+			st, ok := ins.(*ssa.Store)
+			if !ok {
+				return
+			}
+			ia, ok := st.Addr.(*ssa.IndexAddr)
+			if !ok {
+				return
+			}
+			idx, ok := constInt(ia.Index)
+			if !ok {
+				return
+			}
+			cv, ok := st.Val.(*ssa.Convert)
+			if !ok {
+				return
+			}
+			if b, isB := cv.Type().Underlying().(*types.Basic); !isB || (b.Kind() != types.Uint8 && b.Kind() != types.Byte) {
+				return
+			}
+			shift := int64(0)
+			v := cv.X
+			if sh, isSh := cv.X.(*ssa.BinOp); isSh && sh.Op == token.SHR {
+				k, isK := constInt(sh.Y)
+				if !isK {
+					return
+				}
+				shift, v = k, sh.X
+			}
+			if _, isConst := v.(*ssa.Const); isConst {
+				return
+			}
+			if bt, isB := v.Type().Underlying().(*types.Basic); !isB || bt.Info()&types.IsInteger == 0 || bt.Kind() == types.Uint8 || bt.Kind() == types.Int8 {
+				return
+			}
+			byBase[ia.X] = append(byBase[ia.X], elem{idx, shift, blockLocalValue(v), st})
+		})
+		for _, es := range byBase {
+			// groups of consecutive indices that spell the same value
+			sort.Slice(es, func(i, j int) bool { return es[i].idx < es[j].idx })
+			for i := 0; i < len(es); {
+				j := i + 1
+				for j < len(es) && es[j].idx == es[j-1].idx+1 && stripConv(es[j].v) == stripConv(es[i].v) {
+					j++
+				}
+				if j-i >= 2 {
+					n++
+					cnt := int64(j - i)
+					good := true
+					var got []string
+					for k := i; k < j; k++ {
+						got = append(got, fmt.Sprint(es[k].shift))
+						if es[k].shift != 8*(cnt-1-int64(k-i)) {
+							good = false
+						}
+					}
+					R.analysed(fname(fn))
+					R.check(good, "shift-encoding", fmt.Sprintf("%s: %d bytes of %s", fname(fn), cnt, P.sym(es[i].v)), P.ipos(es[i].st),
+						"big-endian, every byte once", fmt.Sprintf("the %d bytes are written with the shifts [%s], not [%d … 8 0]: the value on the wire differs from the value meant as soon as the affected byte is non-zero", cnt, strings.Join(got, " "), 8*(cnt-1)))
+				}
+				i = j
+			}
+		}
+	}
+	R.note(fmt.Sprintf("%d integers written byte by byte with shifts.", n))
 }
